@@ -40,8 +40,8 @@ TARGETS = {
     "c15": ("asan", ["harness_main", "budget", "simfs"], [], True, "-ldl"),
     "c04": ("asan", ["harness_main", "budget", "simfs"], [], True, "-ldl"),
     "c07": ("asan", ["harness_main", "budget", "simfs"], [], True, "-ldl"),
-    "c20": ("tsan", ["harness_main", "tsan_glue"], ["sched"], False, "-ldl -lpthread"),
-    "c09": ("tsan", ["harness_main", "tsan_glue"], ["sched"], True, "-ldl -lpthread"),
+    "c20": ("tsan", ["harness_main"], ["sched", "tsan_glue"], False, "-ldl -lpthread"),
+    "c09": ("tsan", ["harness_main"], ["sched", "tsan_glue"], True, "-ldl -lpthread"),
 }
 
 
@@ -112,7 +112,7 @@ def write_ninja(targets):
             if o not in done:
                 done.add(o)
                 lines.append("build %s: cxx %s" % (esc(o), esc(os.path.join(VERIF, "sim", k + ".cpp"))))
-                lines.append("  flags = %s -O2 -Wall -Wextra" % COMMON)
+                lines.append("  flags = %s -O2 -fno-builtin -Wall -Wextra" % COMMON)
         if lib:
             objs.append(os.path.join(BUILD, fl, "libcelma.a"))
         exe = os.path.join(BUILD, "bin", t)
